@@ -4,6 +4,7 @@ runner, views of live indipy objects, verdict rule, evidence and replay files.
 Runs under /venv/bin/python -B with PYTHONPATH=<repo> (see ./check).
 """
 import contextlib
+import logging
 import fcntl
 import hashlib
 import json
@@ -210,20 +211,18 @@ def evaluate(component, cases, outcome, keep_samples=3, batch=2000, deadline=Non
                     outcome.corr_fail.append((case, q, reply))
         pending.clear()
 
-    for case in cases:
-        if deadline is not None and time.time() > deadline:
-            outcome.count("search-stopped-at-deadline")
-            break
+    def run_one(case):
         outcome.cases += 1
         try:
-            qs = component.run_impl(case, outcome)
+            with ambient(case.get("_env") if isinstance(case, dict) else None):
+                qs = component.run_impl(case, outcome)
         except (KeyboardInterrupt, SystemExit):
             raise
         except BaseException as e:  # noqa  -- the harness could not observe the implementation on this case (also: an escaping
             # CancelledError / watchdog): counted, and reported as "no longer shown to hold" if no failing input is found
             import traceback
             outcome.harness_errors.append((case, "".join(traceback.format_exception_only(type(e), e)).strip()))
-            continue
+            return
         if len(outcome.samples) < keep_samples:
             outcome.samples.append(case)
         for q in qs:
@@ -231,7 +230,54 @@ def evaluate(component, cases, outcome, keep_samples=3, batch=2000, deadline=Non
             pending.append((case, q))
         if len(pending) >= batch:
             flush()
+
+    extra = 0
+    for n, case in enumerate(cases):
+        if deadline is not None and time.time() > deadline:
+            outcome.count("search-stopped-at-deadline")
+            break
+        run_one(case)
+        # the same case once more under another ambient configuration of the process (every 4th case, at most 2500 per suite):
+        # the library must behave the same with its debug logging switched on
+        if n % 4 == 0 and extra < 2500 and isinstance(case, dict) and "_env" not in case and not case.get("loghandler") \
+                and getattr(component, "AMBIENT", True):
+            extra += 1
+            outcome.count("ambient:debuglog")
+            run_one(dict(case, _env="debuglog"))
     flush()
+
+
+class _FormattingHandler(logging.Handler):
+    """formats every record (so that lazily evaluated log arguments are evaluated) and drops it"""
+
+    def emit(self, record):
+        try:
+            self.format(record)
+        except Exception:  # noqa
+            pass
+
+
+@contextlib.contextmanager
+def ambient(env):
+    """run a case under an ambient configuration: "debuglog" = the library's loggers at DEBUG with a formatting handler"""
+    if env != "debuglog":
+        yield
+        return
+    lg = logging.getLogger("indi")
+    old_level, old_prop = lg.level, lg.propagate
+    h = _FormattingHandler()
+    lg.addHandler(h)
+    lg.setLevel(logging.DEBUG)
+    lg.propagate = False
+    old_disable = logging.root.manager.disable          # check.py silences the library's logging process-wide
+    logging.disable(logging.NOTSET)
+    try:
+        yield
+    finally:
+        logging.disable(old_disable)
+        lg.removeHandler(h)
+        lg.setLevel(old_level)
+        lg.propagate = old_prop
 
 
 # --------------------------------------------------------------------------
